@@ -402,6 +402,10 @@ func PutNamed(container []byte, signature interop.Signature,
 			domain, recordtype.TXT, std.Base58Encode(containerID))
 
 		key := append([]byte(nnsHasAliasKey), containerID...)
+		// a live container that is put again under another name drops its previous alias record
+		if oldDomain := storage.Get(ctx, key); oldDomain != nil {
+			deleteNNSRecords(ctx, oldDomain.(string))
+		}
 		storage.Put(ctx, key, domain)
 	}
 
